@@ -1,6 +1,15 @@
 """Which contract modules and bounded harnesses decide which property."""
 UNITS_CORE = ["contracts.units_fraction", "contracts.units_magnitude", "contracts.units_convert"]
+UNITS_ALL = UNITS_CORE + ["contracts.units_quantity", "contracts.units_frames", "contracts.units_nonlinear"]
 PROPS = {
+    "C06": dict(contracts=UNITS_ALL, bounded="bounded.c06", level="proof",
+                assumptions=["pow(x,y) for a non-integer exponent is an uninterpreted real function; 'base value of a power = power of the base value' additionally needs pow(x*f,p)=pow(x,p)*pow(f,p), which is assumed, not proved",
+                             "unit structure is enumerated (pairs from the published tables), magnitudes are symbolic"]),
+    "C07": dict(contracts=UNITS_ALL, bounded="bounded.c07", level="proof",
+                assumptions=["numpy-array magnitudes are covered by the bounded stand-in only (the proof is for scalar magnitudes)",
+                             "frame conditions are checked on the explicit heap of the executor: every write to an object that existed at entry is recorded and must be listed in `modifies` or restore the entry value"]),
+    "C08": dict(contracts=UNITS_ALL, bounded="bounded.c08", level="proof",
+                assumptions=["array uncertainties (np.max over two arrays) are covered by the bounded stand-in only"]),
     "C05": dict(contracts=["contracts.units_nonlinear"], bounded="bounded.c05", level="proof",
                 assumptions=["log10/pow10/ln/exp are uninterpreted real functions with exactly the axioms: pow10(log10 y)=y and exp(ln y)=y for y>0, log10(pow10 x)=x, ln(exp x)=x, pow10 x>0, exp x>0",
                              "numeric coefficients inside log10/ln/exp/pow10 arguments are rounded to 13 significant digits (float rounding of table constants)"]),
